@@ -269,7 +269,7 @@ impl DomainRouter {
             domain2path_router.insert(domain, path_router);
         }
 
-        Self::detect_domain_conflicts(db, diagnostics)?;
+        Self::detect_domain_conflicts(db, domain2path_router.keys(), diagnostics)?;
 
         Ok(Self {
             domain2path_router,
@@ -284,14 +284,28 @@ impl DomainRouter {
     ///
     /// By trying to create the router in the compiler itself!
     /// If it works now, it'll work at runtime too.
-    fn detect_domain_conflicts(
-        aux: &AuxiliaryData,
+    ///
+    /// Whether `matchit` reports a conflict depends on the insertion order: we go through the
+    /// guards in registration order first, then through `runtime_guards`, the exact sequence
+    /// of insertions performed by the generated code.
+    fn detect_domain_conflicts<'a>(
+        aux: &'a AuxiliaryData,
+        runtime_guards: impl Iterator<Item = &'a DomainGuard>,
+        diagnostics: &crate::diagnostic::DiagnosticSink,
+    ) -> Result<(), ()> {
+        Self::_detect_domain_conflicts(aux, aux.domain_guard2locations.keys(), diagnostics)?;
+        Self::_detect_domain_conflicts(aux, runtime_guards, diagnostics)
+    }
+
+    fn _detect_domain_conflicts<'a>(
+        aux: &'a AuxiliaryData,
+        guards: impl Iterator<Item = &'a DomainGuard>,
         diagnostics: &crate::diagnostic::DiagnosticSink,
     ) -> Result<(), ()> {
         let mut router = matchit::Router::new();
         let mut has_errored = false;
         let mut pattern2guard = HashMap::new();
-        for guard in aux.domain_guard2locations.keys() {
+        for guard in guards {
             let pattern = guard.matchit_pattern();
             pattern2guard.insert(pattern.clone(), guard);
             let Err(e) = router.insert(pattern, ()) else {
@@ -417,6 +431,7 @@ impl PathRouter {
                 .entry(path)
                 .or_insert_with(|| LeafRouter::new(fallback_id));
         }
+        Self::check_runtime_insertion_order(&path2method_router, aux, diagnostics)?;
 
         Ok(Self {
             root_fallback_id,
@@ -521,6 +536,35 @@ impl PathRouter {
             }
         }
         if errored { Err(()) } else { Ok(path_router) }
+    }
+
+    /// The generated code builds its router by inserting the keys of `path2method_router`,
+    /// in iteration order, and unwraps every insertion.
+    /// Whether `matchit` reports a conflict depends on the order in which paths are inserted,
+    /// and that order is not the one we used so far (registration order, then fallbacks).
+    /// We therefore replay the exact sequence of insertions the generated code will perform:
+    /// if it works now, it'll work at runtime too.
+    fn check_runtime_insertion_order(
+        path2method_router: &BTreeMap<String, LeafRouter>,
+        aux: &AuxiliaryData,
+        diagnostics: &crate::diagnostic::DiagnosticSink,
+    ) -> Result<(), ()> {
+        let mut runtime_router = matchit::Router::new();
+        let mut errored = false;
+        for (path, leaf_router) in path2method_router {
+            let Err(e) = runtime_router.insert(path.clone(), ()) else {
+                continue;
+            };
+            errored = true;
+            let id = leaf_router
+                .handler_id2methods
+                .keys()
+                .next()
+                .copied()
+                .unwrap_or(leaf_router.fallback_id);
+            push_matchit_diagnostic(aux, path, id, e, diagnostics);
+        }
+        if errored { Err(()) } else { Ok(()) }
     }
 
     /// Determine, for each request handler, which fallback should be used if an incoming request
